@@ -661,7 +661,11 @@ func (copyEngine) Gen(t *rapid.T, tier string) interface{} {
 		c.Trace = rapid.IntRange(1, 30).Draw(t, "trace")
 	}
 	uid := 0
-	nops := rapid.IntRange(1, 10).Draw(t, "nops")
+	maxOps, maxNodes := 10, 6
+	if tier == "thorough" {
+		maxOps, maxNodes = 24, 8
+	}
+	nops := rapid.IntRange(1, maxOps).Draw(t, "nops")
 	nnodes := 1
 	for i := 0; i < nops; i++ {
 		k := rapid.IntRange(0, 9).Draw(t, "opkind")
@@ -672,7 +676,7 @@ func (copyEngine) Gen(t *rapid.T, tier string) interface{} {
 		switch {
 		case k <= 3:
 			c.Ops = append(c.Ops, COp{Kind: "run", Node: node, Src: genCopyProg(t, &uid)})
-		case k <= 5 && nnodes < 6 && i > 0:
+		case k <= 5 && nnodes < maxNodes && i > 0:
 			c.Ops = append(c.Ops, COp{Kind: "copy", Node: node})
 			nnodes++
 		case k == 6:
